@@ -703,7 +703,8 @@ func TestVerifC37Exhaustive(t *testing.T) {
 	defer c.Finish()
 	c37assume(c)
 	full := c.N(9, 12)
-	c.Rule(fmt.Sprintf("arrays of size 0..33 x 4 hash functions x {plain, vector commitment}; for sizes <= %d every subset of positions, above that every subset of <= 2 positions plus PRNG subsets; each honest proof must verify and the root must equal the reference; then every single-field mutation operator (element, position incl. every position up to 2^depth+1, root, every TreeDepth 0..depth+3 and 16,17,63,64,65,255, path digest flip/drop/duplicate/swap/append, hash type) must be rejected unless the mutated claim is still true; distinct = (kind, hash, size, |positions|, per-level sibling-pair shape)", full))
+	pairsUpTo := c.N(20, 33) // sizes up to which every pair of positions is taken
+	c.Rule(fmt.Sprintf("arrays of size 0..33 x 4 hash functions x {plain, vector commitment}; for sizes <= %d every subset of positions, above that every single position, every pair of positions (sizes <= %d) plus PRNG subsets and the full set; each honest proof must verify and the root must equal the reference; then every single-field mutation operator (element, position incl. every position up to 2^depth+1, root, every TreeDepth 0..depth+3 and 16,17,63,64,65,255, path digest flip/drop/duplicate/swap/append, hash type) must be rejected unless the mutated claim is still true; distinct = (kind, hash, size, |positions|, per-level sibling-pair shape)", full, pairsUpTo))
 	type job struct {
 		n  int
 		ht crypto.HashType
@@ -758,6 +759,9 @@ func TestVerifC37Exhaustive(t *testing.T) {
 					run(nil, "empty")
 					for p := 0; p < j.n; p++ {
 						run([]uint64{uint64(p)}, "single")
+						if j.n > pairsUpTo {
+							continue
+						}
 						for q := p + 1; q < j.n; q++ {
 							run([]uint64{uint64(p), uint64(q)}, "pair")
 						}
